@@ -8,6 +8,66 @@ ASSUME = ["over-mounts are real mount(2) calls in the shard's private mount name
           "kernels that report mount ids (this one: STATX_MNT_ID_UNIQUE)"]
 
 
+RACE_TARGETS = [("self", "status", [("/proc/{pid}/status", "bind-file"), ("/proc/{pid}/status", "bind-procfile"), ("/proc/self", "bind-symlink")]),
+                ("self", "attr/current", [("/proc/{pid}/attr", "tmpfs"), ("/proc/{pid}/attr/current", "bind-procfile"), ("/proc/{pid}/attr", "bind-procdir")]),
+                ("root", "stat", [("/proc/stat", "bind-file"), ("/proc/stat", "bind-procfile")]),
+                ("thread-self", "status", [("/proc/{pid}/task/{pid}/status", "bind-file"), ("/proc/thread-self", "bind-symlink")])]
+
+
+def racing_mounts(v, quick, rnd):
+    """every placement of one racing mount(2) between the procfs-relative syscalls of a non-following
+    open, for every handle kind and both resolvers (ptrace-scheduled; the mounter is the supervisor)"""
+    base_cases, idx = [], []
+    for hk, how in pc.HOW.items():
+        for rs, feat in (("openat2", {"openat2": True}), ("opath", {"openat2": False})):
+            for base, path, mounts in RACE_TARGETS:
+                for fl in (O["RDONLY"] | O["NONBLOCK"], O["PATH"]):
+                    calls = [dict(op="proc_from_fd", how=how), dict(op="proc_open", base=base, path=path, oflags=fl)]
+                    base_cases.append(dict(id="rmb|%d" % len(base_cases), tree=[], feat=feat, trace=True, raw=False, proc_relevant=True, calls=calls))
+                    idx.append((hk, rs, base, path, mounts, fl, calls, feat))
+    order = sorted(range(len(base_cases)), key=lambda i: json.dumps(base_cases[i]["feat"]))
+    bres = run_pv([base_cases[i] for i in order], jobs=8, tag="C06rb")
+    cases = []
+    for i, br in zip(order, bres):
+        hk, rs, base, path, mounts, fl, calls, feat = idx[i]
+        ks = [e.get("k", -1) for e in br.get("events", []) if e.get("ev") == "sys" and e.get("rel") and e.get("call") == 1]
+        n = max(ks) + 1 if ks else 0
+        baseline = lib_outcome(br["out"][0]["results"][1]) if br.get("out") and "results" in br["out"][0] and len(br["out"][0]["results"]) > 1 else ("err", "?")
+        for (target, kind) in mounts:
+            for k in range(n + 1):
+                cases.append(dict(id="rm|%s|%s|%s|%s|%s|%s|%d" % (hk, rs, base, path, target, kind, k), tree=[], feat=feat, trace=True, raw=False, proc_relevant=True, calls=calls,
+                                  sched=[dict(call=1, k=k, acts=[dict(act="mount", target=target, kind=kind, src=pc.SRC[kind])])],
+                                  meta=dict(hk=hk, rs=rs, base=base, path=path, target=target, kind=kind, k=k, baseline=list(baseline), fl=fl)))
+    space = len(cases)
+    if quick and len(cases) > 500:
+        rnd.shuffle(cases)
+        cases = cases[:500]
+    cases.sort(key=lambda c: json.dumps(c["feat"]))
+    res = run_pv(cases, jobs=8, tag="C06r")
+    fired = 0
+    for c, r in zip(cases, res):
+        m = c["meta"]
+        if r.get("status") != "ok" or not r.get("out") or "results" not in r["out"][0] or len(r["out"][0]["results"]) < 2:
+            continue
+        atts = [e for e in r.get("events", []) if e.get("ev") == "att"]
+        if not atts or atts[0].get("ret") != 0:
+            continue
+        fired += 1
+        h, x = r["out"][0]["results"][0], r["out"][0]["results"][1]
+        got = lib_outcome(x)
+        src = crate_src = None
+        desc = "proc_open(%s, %r, %#o) on a %s handle [%s resolver] with %s mounted on %s before procfs syscall #%d" % (m["base"], m["path"], m["fl"], m["hk"], m["rs"], m["kind"], m["target"], m["k"])
+        if got[0] == "ok":
+            if x.get("fstype") != pc.PROC_MAGIC:
+                v.violation(dict(check="procfs-racing-mount", what="not procfs", hk=m["hk"], rs=m["rs"], path=m["path"], kind=m["kind"]), "C06: %s: returned an object that is not on procfs (f_type %#x)" % (desc, x.get("fstype") or 0), c)
+            elif (x.get("rawdev"), x.get("rawino")) == (atts[0].get("src_dev"), atts[0].get("src_ino")) and atts[0].get("src_ino"):
+                v.violation(dict(check="procfs-racing-mount", what="over-mounted object", hk=m["hk"], rs=m["rs"], path=m["path"], kind=m["kind"]), "C06: %s: returned the object of the racing over-mount" % desc, c)
+        if not pc.sees(m["hk"]) and tuple(m["baseline"]) != got and not (got[0] == "ok" and m["baseline"][0] == "ok"):
+            v.violation(dict(check="procfs-racing-mount-private", hk=m["hk"], rs=m["rs"], path=m["path"], kind=m["kind"], got=list(got)),
+                        "C06: %s: outcome %s differs from the unraced outcome %s although the handle is private" % (desc, got, tuple(m["baseline"])), c)
+    return dict(racing_space=space, racing_executed=len(cases), racing_fired=fired)
+
+
 def main(tier_):
     t0 = time.time()
     quick = tier_ == "quick"
@@ -83,6 +143,8 @@ def main(tier_):
                     v.notes.append("over-mount rejected with %s instead of EXDEV: %s" % (got[1], desc))
             if len(samples) < 6 and g["om"] and got[1] == "EXDEV":
                 samples.append(dict(case=desc, result="EXDEV"))
+    # ---- one racing mount, placed before every procfs-relative syscall of a non-following open
+    race_stats = racing_mounts(v, quick, rnd)
     if pending_private:
         twins = [dict(c, id=c["id"] + "-nomounts", mounts=[]) for c, g, got, desc in pending_private]
         tres = run_pv(twins, jobs=4, tag="proc2")
@@ -101,6 +163,6 @@ def main(tier_):
                rule="case = (over-mount set of <= %d mounts over 10 mountable nodes x kinds, handle kind, resolver, base, path, op) generated by TLC; non-trivial = at least one over-mount is present" % (1 if quick else 2),
                exhaustive=not quick, generated=total, design_complete=design["complete"], design_violated=design["violated"], mechanism_removal_variants=variants,
                mount_failed=stats["mount_failed"], handle_failed=stats["handle_failed"], outcomes={k: n for k, n in stats.items() if k.startswith(("ok", "err_"))},
-               model_ok_real_err=stats["model_ok_real_err"], exdev_other_errno=stats["exdev_other_errno"], notes=v.notes[:12], build_s=round(build_s, 1))
+               racing_mounts=race_stats, model_ok_real_err=stats["model_ok_real_err"], exdev_other_errno=stats["exdev_other_errno"], notes=v.notes[:12], build_s=round(build_s, 1))
     write_evidence("C06", tier_, "model_checking", cov, ASSUME, time.time() - t0, len(v.violations))
     return rc
